@@ -65,6 +65,7 @@ class Skeleton(object):
         self.env = {}            # local name -> defining expression (already normalised)
         self.assign_count = {}
         self.table_names = set(table_names)
+        self.table_cond = {}     # table name -> guards under which it was re-bound to data(<itself>) (header dropped)
         for n in own_nodes(fn.node):
             if isinstance(n, ast.Assign):
                 for t in n.targets:
@@ -78,8 +79,11 @@ class Skeleton(object):
         return norm(ast.fix_missing_locations(e2))
 
     def guard_text(self, test, pol):
-        t = self.nexpr(test)
-        return t if pol else 'not (%s)' % t
+        # canonical polarity: `not x`, `x is not None`, `a != b` are the negations of `x`, `x is None`, `a == b`
+        from .ladder import positive
+        p, neg = positive(test)
+        t = self.nexpr(p)
+        return t if (pol != neg) else 'not (%s)' % t
 
     # ---- traversal
     def walk(self, body, guards, region):
@@ -131,6 +135,12 @@ class Skeleton(object):
                         self.env[tgt] = saved
                     return
             self.walk(s.body, guards, 'loop')
+            return
+        if isinstance(s, ast.Assign) and len(s.targets) == 1 and isinstance(s.targets[0], ast.Name) and \
+                s.targets[0].id in self.table_names and isinstance(s.value, ast.Call) and norm(s.value.func) == 'data' and \
+                s.value.args and norm(s.value.args[0]) == s.targets[0].id:
+            # `if not write_header: table = data(table)`: the header row is dropped under these guards
+            self.table_cond[s.targets[0].id] = list(guards)
             return
         if isinstance(s, ast.Assign) and len(s.targets) == 1 and isinstance(s.targets[0], ast.Name):
             name = s.targets[0].id
@@ -189,8 +199,50 @@ class Skeleton(object):
                     out.append((c.func.attr, p, c))
         return out
 
+    def _neg(self, g):
+        return g[5:-1] if g.startswith('not (') and g.endswith(')') else 'not (%s)' % g
+
+    def _writerows(self, c, guards, region):
+        """writer.writerows(T) == one writerow per element of T: header (when T still holds it) and data rows"""
+        t = c.args[0] if c.args else None
+        if t is None:
+            return False
+        hdr_guards = None       # None: no header written; list: guards under which the header row is written
+        tx = t
+        if isinstance(t, ast.Name) and t.id in self.env and t.id not in self.table_names:
+            tx = self.env[t.id]
+        if isinstance(tx, ast.Name) and tx.id in self.table_names:
+            cond = self.table_cond.get(tx.id)
+            hdr_guards = [] if cond is None else [self._neg(g) for g in cond]
+        elif isinstance(tx, ast.Call) and norm(tx.func) == 'data' and tx.args and norm(tx.args[0]) in self.table_names:
+            hdr_guards = None
+        elif isinstance(tx, ast.IfExp) and norm(tx.body) in self.table_names and isinstance(tx.orelse, ast.Call) and \
+                norm(tx.orelse.func) == 'data':
+            hdr_guards = [self.guard_text(tx.test, True)]
+        else:
+            return False
+        if hdr_guards is not None:
+            self.effects.append(Effect('writerow', 'HDR', list(guards) + hdr_guards, region, c))
+        self.effects.append(Effect('writerow', 'ROW', guards, 'loop', c))
+        return True
+
     def call(self, c, guards, region):
         f = c.func
+        # csv.writer(sink, **args).writerows(table): the writer is created and used in one expression
+        if isinstance(f, ast.Attribute) and isinstance(f.value, ast.Call) and norm(f.value.func) in ('csv.writer',) and \
+                f.value.args and isinstance(f.value.args[0], ast.Name) and f.value.args[0].id in self.sinks:
+            w = f.value
+            extra = ', '.join('**' + self.nexpr(k.value) if k.arg is None else '%s=%s' % (k.arg, self.nexpr(k.value))
+                              for k in w.keywords)
+            self.effects.append(Effect('csv.writer', extra, guards, region, w))
+            if f.attr == 'writerows' and self._writerows(c, guards, region):
+                return
+            payload = ', '.join(self.nexpr(a) for a in c.args)
+            self.effects.append(Effect(f.attr, payload, guards, region, c))
+            return
+        if isinstance(f, ast.Attribute) and isinstance(f.value, ast.Name) and f.value.id in self.sinks \
+                and f.attr == 'writerows' and self._writerows(c, guards, region):
+            return
         if isinstance(f, ast.Attribute) and isinstance(f.value, ast.Name) and f.value.id in self.sinks \
                 and f.attr in SINK_METHODS:
             payload = ', '.join(self.nexpr(a) for a in c.args)
